@@ -583,25 +583,30 @@ fn from_states_cases<E: Residual>(eos: &Arc<E>, t: Temperature, rho_scale: f64, 
     out
 }
 
-fn diagram_case<E: Residual>(label: &str, eos: &Arc<E>, frac: f64, n: usize) -> Value {
+fn diagram_case<E: Residual>(label: &str, eos: &Arc<E>, frac: f64, n: usize, opt: Option<(usize, f64)>) -> Value {
     let r = catch_unwind(AssertUnwindSafe(|| -> Result<Value, String> {
         let cp = State::critical_point(eos, None, None, SolverOptions::default()).map_err(|e| e.to_string())?;
         if !sweep::physical(&cp) {
             return Err("unphysical default critical point".into());
         }
         let tmin = cp.temperature * frac;
-        let dia = PhaseDiagram::pure(eos, tmin, n, None, SolverOptions::default()).map_err(|e| e.to_string())?;
+        // the options are the VLE solver's; the critical point above is the one of the DEFAULT options (model: diagram_res)
+        let o = match opt {
+            None => SolverOptions::default(),
+            Some((mi, tl)) => SolverOptions::new().max_iter(mi).tol(tl),
+        };
+        let dia = PhaseDiagram::pure(eos, tmin, n, None, o).map_err(|e| format!("{e} (State::critical_point with default options is Ok: T_c = {} K)", cp.temperature.to_reduced()))?;
         let ts: Vec<f64> = dia.states.iter().map(|s| s.vapor().temperature.to_reduced()).collect();
         let last = dia.states.last().unwrap();
-        Ok(json!({"label": label, "npoints": n, "tmin": tmin.to_reduced(), "tc": cp.temperature.to_reduced(), "temps": ts,
+        Ok(json!({"label": label, "npoints": n, "options": opt.map(|(mi, tl)| format!("max_iter = {mi}, tol = {tl:e}")), "tmin": tmin.to_reduced(), "tc": cp.temperature.to_reduced(), "temps": ts,
                   "coq": format!("(({}%Z, {}%Z), {n}%nat)", dyadic(tmin.to_reduced()), dyadic(cp.temperature.to_reduced())),
                   "last_is_critical": last.vapor().temperature == cp.temperature && last.vapor().density == cp.density && last.liquid().density == cp.density,
                   "last_rho_equal": last.vapor().density == last.liquid().density}))
     }));
     match r {
         Ok(Ok(v)) => v,
-        Ok(Err(e)) => json!({"label": label, "npoints": n, "error": e}),
-        Err(_) => json!({"label": label, "npoints": n, "error": "panic"}),
+        Ok(Err(e)) => json!({"label": label, "npoints": n, "options": opt.map(|(mi, tl)| format!("max_iter = {mi}, tol = {tl:e}")), "error": e}),
+        Err(_) => json!({"label": label, "npoints": n, "options": opt.map(|(mi, tl)| format!("max_iter = {mi}, tol = {tl:e}")), "error": "panic"}),
     }
 }
 
@@ -689,7 +694,13 @@ fn model_cases<E: Residual>(acc: &mut Acc, label: &str, eos: &Arc<E>, rng: &mut 
     let fs = from_states_cases(eos, tc * 0.8, 3.0 * rho_c, rng, if full { 24 } else { 8 });
     acc.fs.extend(fs);
     for n in if full { vec![3usize, 4, 10, 50, 200] } else { vec![3usize, 10, 50] } {
-        acc.dia.push(diagram_case(label, eos, rng.range(0.45, 0.9), n));
+        acc.dia.push(diagram_case(label, eos, rng.range(0.45, 0.9), n, None));
+    }
+    // non-default options of the VLE solver (iteration limit 6..12, tolerance 1e-12..1e-9)
+    for n in [5usize, 12] {
+        let mi = 6 + rng.below(7);
+        let tl = 10f64.powf(rng.range(-12.0, -9.0));
+        acc.dia.push(diagram_case(label, eos, rng.range(0.6, 0.9), n, Some((mi, tl))));
     }
 }
 
@@ -734,6 +745,17 @@ pub fn run(cli: &feos_verif::cli::Cli, rng: &mut Rng) -> Value {
     if let Ok(eos) = sweep::pcsaft_of("pcsaft/gross2002.json", 0) {
         let f = pick(rng, 1);
         model_cases(&mut acc, "PC-SAFT gross2002#0", &eos, rng, &f, full);
+    }
+    // quantum fluids (critical temperatures far from the trial temperatures of the critical-point solver): diagrams only
+    for (name, file) in [("hydrogen", "aasen2019.json"), ("neon", "hammer2023.json"), ("deuterium", "aasen2019_fh2.json")] {
+        let eos = Arc::new(configs::saftvrqmie(&[name], file, None));
+        let label = format!("SAFT-VRQ Mie {name} ({file})");
+        acc.dia.push(diagram_case(&label, &eos, rng.range(0.6, 0.9), 10, None));
+        let mi = 6 + rng.below(7);
+        acc.dia.push(diagram_case(&label, &eos, rng.range(0.6, 0.9), 8, Some((mi, 1e-12))));
+        if !full {
+            break;
+        }
     }
     // ---- disc.v: the discrete models evaluated by vm_compute
     let mut v = String::from("From Coq Require Import List ZArith QArith Qround String.\nFrom FeosVerif Require Import PureDiagramC04.\nImport ListNotations.\nOpen Scope string_scope.\nSet Printing Width 1000000.\nSet Printing Depth 1000000.\n");
